@@ -77,17 +77,39 @@ class HopcroftKarp:
         Add an augmenting path to the matching by performing a depth-first search.
         """
         inf_dist = self.graph.num_u + 1  # formally "infinite" distance
-        if u != -1:
-            for v in self.graph.adj_u[u]:
-                if self.dist[self.matched_pairs_v[v]] == self.dist[u] + 1:
-                    if self.__add_augmenting_path(self.matched_pairs_v[v]):
-                        self.matched_pairs_v[v] = u
-                        self.matched_pairs_u[u] = v
+        if u == -1:
+            return True
+        # iterative depth-first search with an explicit stack, since the length
+        # of an augmenting path can exceed Python's recursion limit;
+        # 'path_v[k]' is the vertex in 'V' via which 'path_u[k + 1]' has been reached
+        path_u = [u]
+        path_v = []
+        neighbors = [iter(self.graph.adj_u[u])]
+        while path_u:
+            u_cur = path_u[-1]
+            descend = False
+            for v in neighbors[-1]:
+                u_next = self.matched_pairs_v[v]
+                if self.dist[u_next] == self.dist[u_cur] + 1:
+                    path_v.append(v)
+                    if u_next == -1:
+                        # reached an unmatched vertex in 'V', flip the edges along the path
+                        for (u_path, v_path) in zip(path_u, path_v):
+                            self.matched_pairs_v[v_path] = u_path
+                            self.matched_pairs_u[u_path] = v_path
                         return True
-            # do not visit the same vertex multiple times
-            self.dist[u] = inf_dist
-            return False
-        return True
+                    path_u.append(u_next)
+                    neighbors.append(iter(self.graph.adj_u[u_next]))
+                    descend = True
+                    break
+            if not descend:
+                # do not visit the same vertex multiple times
+                self.dist[u_cur] = inf_dist
+                path_u.pop()
+                neighbors.pop()
+                if path_v:
+                    path_v.pop()
+        return False
 
     def __call__(self):
         """
@@ -144,16 +166,21 @@ def _explore_alternating_paths(u_start: int, graph: BipartiteGraph, matching: Se
     """
     Explore alternating paths originating from 'u_start' by a depth-first search.
     """
-    if u_start in u_visited:
-        return
-    u_visited.append(u_start)
-    for v in graph.adj_u[u_start]:
-        # traverse only unmatched edges
-        if (u_start, v) not in matching:
-            if v in v_visited:
-                continue
-            v_visited.append(v)
-            for u in graph.adj_v[v]:
-                # traverse only matched edges
-                if (u, v) in matching:
-                    _explore_alternating_paths(u, graph, matching, u_visited, v_visited)
+    # explicit stack instead of recursion, since the depth of
+    # the alternating tree can exceed Python's recursion limit
+    stack = [u_start]
+    while stack:
+        u_cur = stack.pop()
+        if u_cur in u_visited:
+            continue
+        u_visited.append(u_cur)
+        for v in graph.adj_u[u_cur]:
+            # traverse only unmatched edges
+            if (u_cur, v) not in matching:
+                if v in v_visited:
+                    continue
+                v_visited.append(v)
+                for u in graph.adj_v[v]:
+                    # traverse only matched edges
+                    if (u, v) in matching:
+                        stack.append(u)
